@@ -151,6 +151,10 @@ def render(obj, ospec, req, conf_dict, live_conf=None, observe=None):
             res = obj.ch_text(**kw)
         if observe is not None:
             observe(res)
+        if made_global and req.get('switch_conf') is not None:
+            # the result exists, nobody has looked at it yet - and the application installs another global
+            # configuration (the result keeps the one that was in force when it was made)
+            akcolor.set_global_colors_config(ColorsConfig(req['switch_conf']))
         if req['mode'] == 'whole':
             return str(res)
         # other ways to take the whole text out of a result
@@ -197,7 +201,8 @@ def main():
     out = [None] * len(scenario['requests'])
     # another order than the history, brand-new objects and configurations for every request
     for idx in reversed(range(len(scenario['requests']))):
-        req = scenario['requests'][idx]
+        req = dict(scenario['requests'][idx])
+        req.pop('switch_conf', None)      # (the reference renders without any switch in between)
         ospec = scenario['objects'][req['obj']]
         shared = {}
         obj = build_object(ospec, shared)
